@@ -658,3 +658,51 @@ func multicastRounds(t *testing.T, rounds int) (*C18Case, error) {
 	}
 	return nil, nil
 }
+
+// TestC18AuditClientBuffer: the client as NewAuditClient sets it up (its own read buffer), against the kernel's
+// audit socket. A request of a message type the audit subsystem does not know (1098) is refused with EINVAL
+// before anything else is looked at, and the NLMSG_ERROR reply echoes it: replies whose data portion runs up to
+// the documented maximum (AuditMessageMaxLength) must come back whole.
+func TestC18AuditClientBuffer(t *testing.T) {
+	cl, err := libaudit.NewAuditClient(nil)
+	if err != nil {
+		hC18.Class("no-audit-socket")
+		t.Skipf("NewAuditClient: %v", err)
+	}
+	defer cl.Close()
+	for _, n := range []int{0, 1, 100, 4000, 8900, 8930, 8932, 8936, 8940, 8944, 8947, 8948} {
+		c := C18Case{Kind: "auditclient", Type: 1098, Flags: syscall.NLM_F_REQUEST | syscall.NLM_F_ACK, Payload: bytes.Repeat([]byte{0xA0 | byte(n&15)}, n)}
+		for i := range c.Payload {
+			c.Payload[i] ^= byte(i * 7)
+		}
+		hC18.Eval()
+		seq, err := cl.Netlink.Send(syscall.NetlinkMessage{Header: syscall.NlMsghdr{Type: c.Type, Flags: c.Flags}, Data: c.Payload})
+		if err != nil {
+			hC18.Fail(t, "TestC18AuditClientBuffer", c, "Send of %d bytes on the audit socket: %v", n, err)
+		}
+		var m *libaudit.RawAuditMessage
+		for try := 0; try < 2000; try++ {
+			m, err = cl.Receive(true)
+			if err == syscall.EAGAIN || err == syscall.EINTR {
+				time.Sleep(100 * time.Microsecond)
+				continue
+			}
+			break
+		}
+		want := 20 + (n+3)&^3 // errno, the echoed header, the echoed payload padded to 4 bytes
+		what := fmt.Sprintf("kernel reply with a data portion of %d bytes (maximum %d) to a %d-byte request, read through the client NewAuditClient returns", want, libaudit.AuditMessageMaxLength, n)
+		if err != nil || m == nil {
+			hC18.Fail(t, "TestC18AuditClientBuffer", c, "%s: %v", what, err)
+		}
+		if m.Type != syscall.NLMSG_ERROR || len(m.Data) < 20 || ne.Uint32(m.Data[12:]) != seq {
+			hC18.Fail(t, "TestC18AuditClientBuffer", c, "%s: got type %d with %d bytes (request sequence %d)", what, m.Type, len(m.Data), seq)
+		}
+		if len(m.Data) != want || !bytes.Equal(m.Data[20:20+n], c.Payload) {
+			hC18.Fail(t, "TestC18AuditClientBuffer", c, "%s: Receive returned %d bytes of data; the echoed payload is intact: %v", what, len(m.Data), len(m.Data) >= 20+n && bytes.Equal(m.Data[20:20+n], c.Payload))
+		}
+		hC18.Class("audit-client-own-buffer")
+		if want > 8900 {
+			hC18.NonTrivial(hx.FP("auditclientbuffer", n), func() string { return what })
+		}
+	}
+}
